@@ -42,7 +42,7 @@ replace github.com/boz/kcache => ../kc
 
 replace github.com/boz/go-lifecycle => ../lifecycle
 EOM
-cp "$S/kc/go.sum" "$S/sim/go.sum"
+cat "$S/kc/go.sum" "$V/sim/go.sum" | sort -u > "$S/sim/go.sum"
 cp "$S/kc/go.sum" "$S/lifecycle/go.sum"
 
 "$KCINSTR" -dir "$S/lifecycle" . || exit 2
